@@ -60,6 +60,8 @@ def sym_param(name, ty):
         return Tmpl((Atom(name, "str"), ".val"))
     if ty.startswith("lit:"):
         return ty[4:]
+    if ty.startswith("func:"):
+        return ("__func__", ty[5:])
     raise Unsupported(f"param type {ty}")
 
 
@@ -87,6 +89,11 @@ def build_indicator_task(spec, variant):
         for pname, (ty, cons) in spec.params.items():
             ty = variant.get(pname, ty)
             v = sym_param(pname, ty)
+            if isinstance(v, tuple) and v and v[0] == "__func__":
+                from .exec import FuncVal as _FV
+
+                fm, _c, fn_node, _k = source.function(v[1])
+                v = _FV(fm, fn_node)
             env[pname] = v
             if pname in spec.ctor.get("skip", ()):
                 continue
